@@ -150,7 +150,7 @@ int main(int argc, char **argv) {
       void *m = mmap((void *)ul1, (size_t)u1 * 4096, PROT_READ | PROT_WRITE, MAP_PRIVATE | MAP_ANONYMOUS | MAP_FIXED_NOREPLACE, -1, 0);
       if (m != (void *)ul1) return 6;
       mprotect(m, (size_t)u1 * 4096, perms_of(a));
-      fl += snprintf(facts + fl, sizeof facts - fl, " anonat=%lx", (unsigned long)m);
+      A[NA].p = m; A[NA].pages = u1; fl += snprintf(facts + fl, sizeof facts - fl, " anonat=%lx anon%d=%lx", (unsigned long)m, NA, (unsigned long)m); NA++;
     } else if (sscanf(line, "filexat %lx %511s %u %u %63s", &ul1, b, &u1, &u2, a) == 5) {
       char path[256]; unhex(b, path, sizeof path);
       int fd = open(path, O_RDONLY); void *m = mmap((void *)ul1, (size_t)u2 * 4096, perms_of(a), MAP_PRIVATE | MAP_FIXED_NOREPLACE, fd, (off_t)u1);
